@@ -1,5 +1,6 @@
 import AslModel.Xml
 import AslProofs.Xml
+import AslProofs.XmlRt
 /-!
 # C07 — XML decoding is total and safe; encode then decode preserves the tree
 
@@ -85,5 +86,107 @@ theorem xml_parent_links (x : Bytes) (n : Node) (h : decode x = .node n) :
 example : ∃ n, decode [60, 97, 62, 60, 98, 47, 62, 116, 60, 47, 97, 62] = .node n ∧ (children n).length = 2 := by
   refine ⟨_, rfl, ?_⟩
   decide
+
+/-! ## specification of the promised normalisation -/
+
+/-- "whitespace-only" (space, tab, CR, LF), also true of the empty text -/
+def isBlank (s : Bytes) : Bool := s.all fun c => c == 32 || c == 9 || c == 13 || c == 10
+
+/-- merge adjacent text nodes -/
+def mergeText : List Tree → List Tree
+  | [] => []
+  | .text a :: r =>
+    match mergeText r with
+    | .text b :: r' => .text (a ++ b) :: r'
+    | r' => .text a :: r'
+  | .elem tag attrs cs :: r => .elem tag attrs cs :: mergeText r
+
+def keep : Tree → Bool
+  | .text s => !isBlank s
+  | .elem .. => true
+
+mutual
+/-- same tags, attributes, child order and text, up to merging adjacent text nodes and dropping blank text -/
+def normalize : Tree → Tree
+  | .text s => .text s
+  | .elem tag attrs cs => .elem tag attrs ((mergeText (normalizeList cs)).filter keep)
+def normalizeList : List Tree → List Tree
+  | [] => []
+  | t :: r => normalize t :: normalizeList r
+end
+
+theorem mergeText_text_text (a b : Bytes) (l : List Tree) :
+    mergeText (.text a :: .text b :: l) = mergeText (.text (a ++ b) :: l) := by
+  simp only [mergeText]
+  cases h : mergeText l with
+  | nil => simp
+  | cons x r' => cases x <;> simp
+
+theorem filter_mergeText_nil (l : List Tree) :
+    (mergeText (.text [] :: l)).filter keep = (mergeText l).filter keep := by
+  simp only [mergeText]
+  cases h : mergeText l with
+  | nil => simp [keep, isBlank]
+  | cons x r' => cases x <;> simp [keep, isBlank]
+
+theorem any_not_ws (w : Bytes) : (w.any fun x => !isWs x) = !isBlank w := by
+  induction w with
+  | nil => rfl
+  | cons a t ih => simp [isBlank, isWs] at ih ⊢; rw [ih]
+
+theorem flushK_spec (ks : List Tree) (w : Bytes) : flushK ks w = ks ++ [Tree.text w].filter keep := by
+  unfold flushK
+  rw [any_not_ws]
+  cases h : isBlank w <;> simp [keep, h]
+
+mutual
+theorem normOp_eq_normalize : ∀ t : Tree, normOp t = normalize t
+  | .text s => by simp [normOp, normalize]
+  | .elem tag attrs cs => by
+    have := absorb_spec cs [] []
+    simp only [normOp, normalize, this, List.nil_append, filter_mergeText_nil]
+theorem absorb_spec : ∀ (cs : List Tree) (w : Bytes) (ks : List Tree),
+    flushK (absorbL cs w ks).2 (absorbL cs w ks).1 = ks ++ (mergeText (.text w :: normalizeList cs)).filter keep
+  | [], w, ks => by simp [absorbL, normalizeList, mergeText, flushK_spec]
+  | .text s :: r, w, ks => by
+    have := absorb_spec r (w ++ s) ks
+    simp only [absorbL, normalizeList, normalize, mergeText_text_text, this]
+  | .elem tag attrs cs :: r, w, ks => by
+    have h1 := absorb_spec r [] (flushK ks w ++ [normOp (.elem tag attrs cs)])
+    have h2 := normOp_eq_normalize (.elem tag attrs cs)
+    simp only [absorbL]
+    rw [h1, filter_mergeText_nil, h2, flushK_spec]
+    simp only [normalizeList, normalize, mergeText]
+    cases hk : keep (.text w) <;> simp [List.filter_cons, hk] <;> simp [keep]
+end
+
+
+/-! ## encode then decode
+
+`NameOK` (well-formed tag / attribute name) is the decoder's own test: non-empty, first byte not in its
+`TAG_START` error class, the others not in its `TAG` error class.  `ValidTree`: names `NameOK`,
+attribute lists as a `Map` holds them (strictly increasing keys), values and text without NUL. -/
+
+/-- reference expansion inverts `escape`: reading `escape v` in text or inside a double-quoted
+    attribute value appends exactly `v` to the buffer and changes nothing else, for every NUL-free `v`
+    (including `& < > ' "` and bytes ≥ 0x80) -/
+theorem escape_unescape (v : Bytes) (hv : NulFree v) (c : Cfg) (hc : TextLike c) :
+    ∃ c', feed true c (escape v) = .cont c' ∧ c'.b = c.b ++ v ∧ c'.st = c.st ∧ c'.last = c.last ∧
+      c'.stack = c.stack ∧ c'.next = c.next := by
+  obtain ⟨c', h, u⟩ := feed_escape true v c hc hv
+  exact ⟨c', h, u.b, u.st, u.last, u.stack, u.next⟩
+
+/-- decoding the compact output of `Xml::encode` yields a tree with the same tags, attributes, child
+    order and text, up to the merging of adjacent text nodes and the dropping of whitespace-only text:
+    for every valid element tree (any depth, any fan-out) -/
+theorem xml_roundtrip_compact (tag : Bytes) (attrs : List (Bytes × Bytes)) (cs : List Tree)
+    (h : ValidTree (.elem tag attrs cs)) :
+    ∃ n, decode (encode false (.elem tag attrs cs)) = .node n ∧ n.erase = normalize (.elem tag attrs cs) := by
+  obtain ⟨n, h1, h2⟩ := decode_encode_compact tag attrs cs h
+  exact ⟨n, h1, by rw [h2, normOp_eq_normalize]⟩
+
+/-- non-vacuity: `<a b="&lt;&amp;"> h<c/></a>`-like tree with adjacent and blank text is valid -/
+example : ValidTree (.elem [97] [([98], [60, 38]), ([99, 58], [])] [.text [32], .text [104, 38], .text [], .elem [99] [] [], .text [10]]) := by
+  simp [ValidTree, ValidList, NameOK, AttrsOK, NulFree, nameStartBad, nameCharBad, bytesLt]
 
 end C07
